@@ -30,6 +30,8 @@ import Verif.Lemmas.LevelStore
 import Verif.Lemmas.MptRound
 import Verif.Lemmas.MergeRound
 import Verif.Lemmas.TrieRun
+import Verif.Lemmas.NotStuck
+import Verif.Lemmas.Interp
 import Verif.Lemmas.OrderChanges
 namespace Verif.Props.C03
 open Verif.Mpt Verif.MptStore Verif.MptStore.Collector
@@ -191,7 +193,7 @@ theorem merge_resolves_partial (H : Bytes → Bytes) (below : Bytes → Option B
 /-- **Merge publishes into the parent's store — one merged transaction** (closed form of `MergeResolves` for a parent
     that executed own operations `esP` and accepts a child that executed own operations `esC` on the parent's tree):
     the parent's new root resolves in the parent's layered store.  Proved discipline for own operations and for the
-    replay; assumed: canonical resolvable start tree, key injectivity, `orderChanges` not stuck (`orderStuck = false`). -/
+    replay, and that `orderChanges` is never stuck; assumed: canonical resolvable start tree, key injectivity. -/
 theorem merge_resolves_one_child (H : Bytes → Bytes) (below : Bytes → Option Bytes) (t0 t1 t2 : Node) (p0 c0 : Trie)
     (v : Nat) (esP esC : List Event)
     (hfresh : p0.cc.changes = [] ∧ p0.cc.deletes = []) (hcur : p0.db.current = [])
@@ -201,10 +203,21 @@ theorem merge_resolves_one_child (H : Bytes → Bytes) (below : Bytes → Option
     (hctree : (c0.applyEvents H esC).tree = t2)
     (hup : (p0.applyEvents H esP).root = (c0.applyEvents H esC).cc.startRoot)
     (hne : (p0.applyEvents H esP).root ≠ (c0.applyEvents H esC).root)
-    (hstuck : orderStuck H (c0.applyEvents H esC).cc.getChanges = false)
     (hU : KeyInjOn H (fun r => r ∈ refs t0 [] ∨ r ∈ eventRefs esP ∨ r ∈ eventRefs esC)) :
     ∃ p', mergeMPTChanges H (p0.applyEvents H esP) (c0.applyEvents H esC) = .ok p' ∧
       Resolves H (levelGet p' below) p'.tree [] := by
+  obtain ⟨_, hcrP0, hw10⟩ := round_ok hP hw (fun r => r ∈ refs t0 []) (fun _ h => h)
+  have hstuck : orderStuck H (c0.applyEvents H esC).cc.getChanges = false := by
+    have hrunC : TrieRun H (fun r => r ∈ refs t0 [] ∨ r ∈ eventRefs esP ∨ r ∈ eventRefs esC) (fun _ => True) t1 (esC ++ []) t2 :=
+      TrieRun.own v t1 t2 t2 esC [] trivial hC (fun r hr => Or.inr (Or.inr hr)) (TrieRun.nil _)
+    have hUt1 : ∀ r ∈ refs t1 [], r ∈ refs t0 [] ∨ r ∈ eventRefs esP ∨ r ∈ eventRefs esC := by
+      intro r hr
+      rcases liveRunR_sub esP _ r (hcrP0 r hr) with h | h
+      · exact Or.inl h
+      · exact Or.inr (Or.inl h)
+    have := trieRun_not_stuck H _ hU hrunC hw10 hUt1 c0 hfreshC (c0.applyEvents H esC).cc.getChanges
+      (by simp)
+    exact this
   have hgood := orderChanges_good H _ hstuck
   obtain ⟨hd, hc, hsubE⟩ := one_merge_discipline H hP hC hw c0 hfreshC _ (orderChanges_perm H _) hgood hU
   obtain ⟨_, hcrP, hw1⟩ := round_ok hP hw (fun r => r ∈ refs t0 []) (fun _ h => h)
@@ -233,11 +246,11 @@ theorem merge_resolves_one_child (H : Bytes → Bytes) (below : Bytes → Option
     collector of `p.applyEvents (mergeEvents (orderChanges changes) deletes)` (`merge_fresh`), this is `MergeResolves` for
     every parent state reachable by such runs.  Discipline proved; assumed: canonical resolvable start tree, key
     injectivity on the run's references, `orderChanges` never stuck (part of `TrieRun`). -/
-theorem run_resolves (H : Bytes → Bytes) (U : Ref → Prop) (below : Bytes → Option Bytes) (t0 t : Node) (p0 : Trie)
-    (v : Nat) (es : List Event)
+theorem run_resolves (H : Bytes → Bytes) (U : Ref → Prop) (Vok : Nat → Prop) (below : Bytes → Option Bytes) (t0 t : Node)
+    (p0 : Trie) (es : List Event)
     (hfresh : p0.cc.changes = [] ∧ p0.cc.deletes = []) (hcur : p0.db.current = [])
     (h0 : Resolves H below t0 []) (hw : WF t0) (hUt : ∀ r ∈ refs t0 [], U r)
-    (hrun : TrieRun H U v t0 es t) (hU : KeyInjOn H U) :
+    (hrun : TrieRun H U Vok t0 es t) (hU : KeyInjOn H U) :
     Resolves H (levelGet (p0.applyEvents H es) below) t [] := by
   obtain ⟨hd, hc, _, hE, hUt'⟩ := trieRun_discipline H U hU hrun hw hUt (fun x => x ∈ (refs t0 []).map (Ref.key H))
     (fun r hr => List.mem_map.mpr ⟨r, hr, rfl⟩)
@@ -251,6 +264,40 @@ theorem run_resolves (H : Bytes → Bytes) (U : Ref → Prop) (below : Bytes →
     · exact hUt' r hr
     · exact hE r hr
   rw [hU a b (hin a ha) (hin b hb) hk]
+
+/-- **Publication into the layered store — every history of the interpreter** (`Forest.step`): after ANY op list from a
+    freshly opened block trie (empty level over stores `below` where its start tree resolves) the block trie's tree —
+    whatever merges, nested merges, discards and version changes happened — resolves in its layered store.  This is
+    `MergeResolves` for every reachable parent state of the block trie.  Side conditions as in `C04_complete_interp`. -/
+theorem resolves_interp (H : Bytes → Bytes) (ord : List (Change Ref) → List (Change Ref)) (hord : ∀ l, (ord l).Perm l)
+    (U : Ref → Prop) (Vok : Nat → Prop) (hU : KeyInjOn H U) (hne : ∀ x, H x ≠ []) (below : Bytes → Option Bytes)
+    (t0 : Node) (v : Nat) (hw : WF t0) (hu : ∀ r ∈ refs t0 [], U r) (h0 : Resolves H below t0 []) (ops : List TOp)
+    (hin : RunIn H ord U Vok { tries := [(0, 0, Trie.open (root H t0) t0 v)] } ops) (pid : Nat) (b : Trie)
+    (hb : (Forest.run H ord { tries := [(0, 0, Trie.open (root H t0) t0 v)] } ops).find 0 = some (pid, b)) :
+    Resolves H (levelGet b below) b.tree [] := by
+  obtain ⟨es, v0, _, h2, hrun, _⟩ := block_is_trieRun H ord hord U Vok hU hne t0 v hw hu ops hin pid b hb
+  have := run_resolves H U Vok below t0 b.tree (Trie.open (root H t0) t0 v0) es ⟨rfl, rfl⟩ rfl h0 hw hu hrun hU
+  have hl : levelGet b below = levelGet ((Trie.open (root H t0) t0 v0).applyEvents H es) below := by
+    funext k; simp only [levelGet, h2]
+  rw [hl]; exact this
+
+/-- non-vacuity of `run_resolves`: a trie that merges one child which inserted a key reads the leaf from its own level -/
+example : ∃ es, TrieRun id (fun r => r = ⟨[], .leaf 1 [3] [65]⟩) (fun v => v = 1) .empty es (.leaf 1 [3] [65]) ∧
+    Resolves id (levelGet ((Trie.open [] .empty 1).applyEvents id es) (fun _ => none)) (.leaf 1 [3] [65]) [] := by
+  have hC : RoundEvents 1 .empty ((insertE 1 [65] .empty [] [3]).2 ++ []) (.leaf 1 [3] [65]) := by
+    apply RoundEvents.ins _ _ _ _ _ (by simp)
+    have h1 : (insertE 1 [65] .empty [] [3]).1 = .leaf 1 [3] [65] := by simp [insertE]
+    rw [h1]; exact RoundEvents.nil _
+  have hchild : TrieRun id (fun r => r = ⟨[], .leaf 1 [3] [65]⟩) (fun v => v = 1) .empty
+      (((insertE 1 [65] .empty [] [3]).2 ++ []) ++ []) (.leaf 1 [3] [65]) :=
+    TrieRun.own 1 _ _ _ _ _ rfl hC (by intro r hr; simpa [insertE, eventRefs] using hr) (TrieRun.nil _)
+  have hrun := TrieRun.merge (H := id) (U := fun r => r = ⟨[], .leaf 1 [3] [65]⟩) (Vok := fun v => v = 1) .empty (.leaf 1 [3] [65])
+    (.leaf 1 [3] [65]) (Trie.open [] .empty 1) _ [] _ ⟨rfl, rfl⟩ hchild (List.Perm.refl _) (by decide) (TrieRun.nil _)
+  refine ⟨_, hrun, ?_⟩
+  apply run_resolves id _ _ (fun _ => none) .empty _ (Trie.open [] .empty 1) _ ⟨rfl, rfl⟩ rfl (by intro r h; simp [refs] at h)
+    (Or.inl rfl) (by intro r h; simp [refs] at h) hrun
+  intro a b ha hb _
+  rw [ha, hb]
 
 /-- non-vacuity of `merge_resolves_one_child` (and of `merge_resolves_partial`, `view_resolves` through it): the parent
     did nothing itself, one child inserted a key; after the merge the parent reads the leaf from its own level -/
@@ -267,10 +314,22 @@ example : ∃ p', mergeMPTChanges id ((Trie.open [] .empty 1).applyEvents id [])
   · simp [Trie.applyEvents, insertE, Trie.applyEvent, Trie.insertNode]
   · simp [Trie.applyEvents, insertE, Trie.applyEvent, Trie.insertNode, Trie.open, Collector.addChange]
   · simp [Trie.applyEvents, insertE, Trie.applyEvent, Trie.insertNode, Trie.open, root, key]
-  · decide
   · intro a b ha hb _
     simp [refs, insertE, eventRefs] at ha hb
     rw [ha, hb]
+
+/-- **The ordering of `mergeChanges` is never stuck**: on any permutation of the pending changes of a trie that ran a
+    `TrieRun` (own rounds and merges of children, nested) from a canonical tree with a fresh collector, the Kahn passes
+    of `orderChanges` always make progress — a pending change that records a predecessor is never blocked, because
+    replacements happen in place, recorded predecessors are nodes of the start tree (pairwise different positions) and a
+    predecessor never has the key of its own entry.  Hence `orderChanges` yields a `GoodOrder` (`orderChanges_good`). -/
+theorem order_never_stuck (H : Bytes → Bytes) (U : Ref → Prop) (hU : KeyInjOn H U) (Vok : Nat → Prop) (t t' : Node)
+    (es : List Event) (hrun : TrieRun H U Vok t es t') (hw : WF t) (hUt : ∀ r ∈ refs t [], U r)
+    (c0 : Trie) (hfresh : c0.cc.changes = [] ∧ c0.cc.deletes = []) (cs : List (Change Ref))
+    (hperm : cs.Perm (c0.applyEvents H es).cc.getChanges) :
+    orderStuck H cs = false ∧ GoodOrder (Ref.key H) (orderChanges H cs) := by
+  have h := trieRun_not_stuck H U hU hrun hw hUt c0 hfresh cs hperm
+  exact ⟨h, orderChanges_good H cs h⟩
 
 /-- The full publication statement: after an accepted merge of a child whose own view resolved, the parent's new root
     resolves in the parent's layered store (`get` = read-through of the parent's level and everything below it).
